@@ -303,3 +303,50 @@ def loops(present: bool, s: str, r: str, a0: bool, a1: bool, a2: bool, b0: bool,
         if unassigned and line not in reported:
             return False
     return True
+
+
+FUNC_ATOMS = ["print(x)", "y = x", "pass", "print(c)"]
+
+
+def calls(present: bool, s: str, r: str, c0: bool, c1: bool, c2: bool, d0: bool, d1: bool, d2: bool) -> bool:
+    """
+    Partition "a,b":   def f(): A  /  if c: B; f()  else: C; f()  /  D     with A from {print(x), y = x, pass, print(c)}
+    reading the module-level x: every read of x (inside f at either call, or at module level) that is unassigned on some
+    execution is reported at its line with one of the initialization labels.
+
+    pre: s in V3 and r in V3 and not (s == "no" and r == "no")
+    post: _
+    """
+    tick()
+    a, b = [int(v) for v in (PART or "0,0").split(",")]
+    c, d = bits(c0, c1, c2), bits(d0, d1, d2)
+    if c >= 7 or d >= 7:
+        return True
+    if excluded("C09.calls", a=a, b=b, c=c, d=d, present=present, s=s, r=r):
+        return True
+    code = "def f():\n%s\nif c:\n%s\n    f()\nelse:\n%s\n    f()\n%s" % (
+        _ind(FUNC_ATOMS[a]), _ind(ATOMS[b]), _ind(ATOMS[c]), ATOMS[d])
+    tree = ast.parse(code)
+    t = _tifa(code)
+    if present:
+        t.name_map[0]["0/x"] = State("x", [], IntType(), "store", None, read=r, set=s, over="no")
+    t.node_chain.append(tree)
+    for stmt in tree.body:
+        t.visit(stmt)
+    reported = set()
+    for label in ("initialization_problem", "possible_initialization_problem", "read_out_of_scope"):
+        for fb in t.analysis.issues.get(label, []):
+            if fb.fields.get("name") == "x":
+                reported.add(fb.location.line)
+    fdef, branch, last = tree.body[0], tree.body[1], tree.body[2]
+    need = {}
+    for arm in (branch.body, branch.orelse):
+        diag = {}
+        seq = [arm[0]] + list(fdef.body) + [last]          # the arm's statement, the call (= body of f), then D
+        ref_block(seq, gamma(present, s, r), diag)
+        for pos, lst in diag.items():
+            need[pos] = need.get(pos, False) or any(False in fs for fs in lst)
+    for (line, col), unassigned in need.items():
+        if unassigned and line not in reported:
+            return False
+    return True
